@@ -442,6 +442,17 @@ func (fc *FuncCtx) execAssign(x *ast.AssignStmt, st *St) {
 
 // coerce adapts a value to a declared Go type (interface boxing etc. are identities in the model).
 func (fc *FuncCtx) coerce(v Term, t types.Type) Term {
+	if t == nil {
+		return v
+	}
+	ts := fc.sortOf(t)
+	return fc.coerceSort(v, ts)
+}
+
+func (fc *FuncCtx) coerceSort(v Term, ts *Sort) Term {
+	if ts.Kind == KUnint && ts.Name == "Any" && !(v.Sort.Kind == KUnint && v.Sort.Name == "Any") && v.Sort.Kind != KFunc && v.Sort.Kind != KTuple {
+		return fc.boxAny(v)
+	}
 	return v
 }
 
